@@ -474,6 +474,11 @@ def child_history(desc: dict) -> dict:
             elif what == "recursionlimit":
                 sys.setrecursionlimit(op["value"])
                 caller_env["reclimit"] = op["value"]
+            elif what == "stdout":
+                import io as _io
+
+                # the caller's stdout is an ASCII / Latin-1 terminal, a pipe, or closed
+                sys.stdout = None if op["value"] is None else _io.TextIOWrapper(_io.BytesIO(), encoding=op["value"], errors="strict")
             elif what == "clock":
                 sim_env["clock"] += op["value"]          # hours or days pass between two calls
             elif what == "pid":
@@ -972,6 +977,8 @@ def gen_history(seed: int, ctx: C10Ctx, knobs: dict | None = None) -> dict:
             k = rng.random()
             if k < 0.12:
                 ops.append({"op": "env", "what": "recursionlimit", "value": rng.choice([3000, 5000, 1000])})
+            elif k < 0.16:
+                ops.append({"op": "env", "what": "stdout", "value": rng.choice(["ascii", "latin-1", "cp1252", None])})
             elif k < 0.2:
                 ops.append({"op": "env", "what": "clock", "value": rng.choice([61.0, 3601.0, 86401.0, 40 * 86400.0])})
             elif k < 0.25:
